@@ -12,7 +12,7 @@ pub fn prop() -> Prop {
         id: "C18",
         level: "exploration",
         rule: "for all 92 z slices: z in {lower bound + 1 ulp, middle, upper bound, upper bound - 1 ulp} x sign; every tabulated time and +-1 ulp (incl. first and last), t < first, t > last; |z| in {zmax, zmax + 1 ulp, 1.2, 1.3}; 1 ns scan of every slice (monotonicity, 8 ns step, bounds); random (z, t) in [-1.3, 1.3] x [-1e-6, 5e-6]. Each lookup through SpacePoint::try_from(Avalanche) is compared with an independent slice selection + linear interpolation of the shipped JSON table (Ok/Err exactly, r and Lorentz angle to 1e-12). Non-trivial = distinct (z bits, t bits) lookups that succeeded.",
-        assumptions: &["the harness parses the same shipped JSON table the library embeds", "when both z and t are out of range either out-of-range error is accepted"],
+        assumptions: &["the harness parses the same shipped JSON table the library embeds", "when |z| exceeds the largest bound the corresponding error is the axial one whatever t is (there is no z slice whose time range could apply)"],
         profiles: both,
         shards: shards16,
         no_progress_cpu_s: None,
@@ -32,9 +32,13 @@ pub enum Look {
     ErrZ,
 }
 pub fn lib_look(z: f64, t: f64) -> Look {
-    let a = Avalanche { t: Time::new::<second>(t), phi: Angle::new::<radian>(1.0), z: Length::new::<meter>(z), wire_amplitude: 1.0, pad_amplitude: 1.0 };
+    lib_look_phi(z, t, 1.0)
+}
+/// second value: avalanche azimuth minus returned azimuth, i.e. the Lorentz correction that was applied
+pub fn lib_look_phi(z: f64, t: f64, phi: f64) -> Look {
+    let a = Avalanche { t: Time::new::<second>(t), phi: Angle::new::<radian>(phi), z: Length::new::<meter>(z), wire_amplitude: 1.0, pad_amplitude: 1.0 };
     match SpacePoint::try_from(a) {
-        Ok(sp) => Look::Ok(sp.r.get::<meter>(), 1.0 - sp.phi.get::<radian>()),
+        Ok(sp) => Look::Ok(sp.r.get::<meter>(), phi - sp.phi.get::<radian>()),
         Err(TryDriftLookupError::DriftTimeOutOfRange(_)) => Look::ErrT,
         Err(TryDriftLookupError::AxialPositionOutOfRange(_)) => Look::ErrZ,
     }
@@ -45,11 +49,10 @@ pub fn ref_look(d: &Table, z: f64, t: f64) -> (Look, bool) {
     let zmax = d[d.len() - 1].1;
     let slice = d.iter().position(|(_, ub)| za <= *ub);
     let Some(s) = slice else {
-        // z out of range; is t out of range for every slice too? (then either error is fine)
-        let tab = &d[d.len() - 1].0;
-        let t_out = t < tab[0].0 || t > tab[tab.len() - 1].0;
-        let _ = zmax;
-        return (Look::ErrZ, t_out);
+        // z out of range: there is no "z slice" whose time range could be consulted, so the corresponding error is
+        // the axial one whatever t is
+        let _ = (zmax, t);
+        return (Look::ErrZ, false);
     };
     let tab = &d[s].0;
     let n = tab.len();
@@ -258,6 +261,32 @@ fn run(ctx: &mut Ctx) {
             z += step * 1.7;
         }
         ctx.count("fixed-t sweeps of z across all slice bounds");
+    });
+    // ---- the azimuth: returned phi = avalanche phi - correction for any avalanche azimuth (the correction must not
+    // depend on phi, nor be wrapped)
+    ctx.cases("azimuth", 92, |ctx, s, rng| {
+        let (tab, ub) = (&d[s as usize].0, d[s as usize].1);
+        let prev_ub = if s == 0 { 0.0 } else { d[s as usize - 1].1 };
+        let z = 0.5 * (prev_ub + ub);
+        for _ in 0..ctx.tier.pick(6, 40) {
+            let t = tab[0].0 + (tab[tab.len() - 1].0 - tab[0].0) * rng.f();
+            let (r, _) = ref_look(&d, z, t);
+            let Look::Ok(_, c_ref) = r else { continue };
+            for phi in [0.0, 1.0, -1.0, 6.2, 2.0 * std::f64::consts::PI, 6.3, 7.0, -7.0, 12.0, 100.0, -100.0, 1e-9, 3.2, -3.2] {
+                ctx.eval();
+                match guard(|| lib_look_phi(z, t, phi)) {
+                    Ok(Look::Ok(_, c)) if (c - c_ref).abs() <= 1e-12 * (1.0 + phi.abs()) => ctx.count("azimuth probes (phi - correction) exact"),
+                    Ok(other) => {
+                        ctx.violation("returned azimuth is not the avalanche azimuth minus the Lorentz correction", format!("slice {} z {} t {:e} phi {}: library {:?}, correction should be {}", s, z, t, phi, other, c_ref), json!({"z": z, "t": t, "phi": phi}));
+                        return;
+                    }
+                    Err(p) => {
+                        ctx.panic_violation("SpacePoint::try_from(Avalanche)", &p, json!({"z": z, "t": t, "phi": phi}));
+                        return;
+                    }
+                }
+            }
+        }
     });
     ctx.cases("signed-zero", 1, |ctx, _i, _rng| {
         for (s, (tab, ub)) in d.iter().enumerate() {
